@@ -827,3 +827,46 @@ Definition c18_session (toks : list (list N)) : list (list N) :=
     end
   | _ => REJECT_TOK
   end.
+
+(* ---------------- C16 ---------------- *)
+From Coq Require Import ZArith.
+From TT Require Import Model.Metrics.
+Open Scope N_scope.
+
+(* the harness script: sessions are numbered in opening order; every successful CONNECT adds a tunnel
+   in: [http1_enabled] ops.  out per snapshot op: [4; sess_h1; sess_h2; tcp; udp; in_h1; in_h2; out_h1; out_h2] *)
+Definition zN (z : Z) : N := Z.to_N z.
+
+Fixpoint c16_ops (w : world) (next_sess next_tun : N) (latest : list (N * N)) (ops : list (list N)) : list (list N) :=
+  match ops with
+  | [] => []
+  | op :: rest =>
+    match op with
+    | [1; p] =>
+      [1; next_sess] :: c16_ops (mstep w (OpenSession next_sess (if p =? 1 then H2 else H1))) (next_sess + 1) next_tun latest rest
+    | [2; s; up; down] =>
+      let w1 := mstep w (OpenTunnel next_tun s) in
+      let w2 := mstep w1 (Transfer s (N.max up 8) down) in
+      [2; 200; down] :: c16_ops w2 next_sess (next_tun + 1) ((s, next_tun) :: latest) rest
+    | [3; s] => [3] :: c16_ops (mstep w (CloseSession s)) next_sess next_tun (filter (fun x => negb (fst x =? s)) latest) rest
+    | [4] =>
+      [4; zN (g_sessions w H1); zN (g_sessions w H2); zN (g_tcp w); zN (g_udp w);
+       zN (c_in w H1); zN (c_in w H2); zN (c_out w H1); zN (c_out w H2)] :: c16_ops w next_sess next_tun latest rest
+    | [5] => [5; 31; 1; zN (g_sessions w H1 + g_sessions w H2)%Z; zN (g_tcp w)] :: c16_ops w next_sess next_tun latest rest
+    | [6; s] => [6; 502; 0] :: c16_ops (mstep w (FailedConnect s)) next_sess next_tun latest rest
+    | [7; s] =>
+      match filter (fun x => fst x =? s) latest with
+      | (_, t) :: _ => [7] :: c16_ops (mstep w (CloseTunnel t)) next_sess next_tun
+                                      (filter (fun x => negb (snd x =? t)) latest) rest
+      | [] => [7] :: c16_ops w next_sess next_tun latest rest
+      end
+    | [8; path] => [8; if path <? 2 then 200 else 400; 0] :: c16_ops w next_sess next_tun latest rest
+    | _ => [997] :: c16_ops w next_sess next_tun latest rest
+    end
+  end.
+
+Definition c16_run (toks : list (list N)) : list (list N) :=
+  match toks with
+  | _ :: ops => c16_ops w0 0 0 [] ops
+  | _ => REJECT_TOK
+  end.
